@@ -17,6 +17,13 @@ mod eval;
 mod pairs;
 mod pgen;
 mod sx;
+mod vconv;
+mod vgen;
+mod vpairs;
+mod virev;
+mod vrun;
+mod vtxev;
+mod vval;
 
 use crate::compile_util::*;
 use crate::util::*;
@@ -404,6 +411,17 @@ fn run_program(src: &str, only: Option<(&str, &[Vec<V>])>, nvec: usize, rng: &mu
 
 pub fn run(args: &Args, out: &mut Out) {
     let mut hist = Hist::default();
+    if args.extra.first().map(|s| s.as_str()) == Some("vgen") {
+        // debugging aid: harness c01 vgen K  -> prints the K-th generated program of the vector stream
+        let k: u64 = args.extra.get(1).and_then(|s| s.parse().ok()).unwrap_or(0);
+        println!("{}", vrun::vprogram(args.seed, k));
+        return;
+    }
+    if args.extra.first().map(|s| s.as_str()) == Some("vdump") {
+        // debugging aid: harness c01 vdump FILE
+        vrun::vdump(&std::fs::read_to_string(&args.extra[1]).unwrap_or_default());
+        return;
+    }
     if args.extra.first().map(|s| s.as_str()) == Some("dump") {
         // debugging aid: harness c01 dump FILE
         let src = std::fs::read_to_string(&args.extra[1]).unwrap_or_default();
@@ -433,6 +451,18 @@ pub fn run(args: &Args, out: &mut Out) {
     if let Some(lines) = args.request_lines() {
         for line in lines {
             let f: Vec<&str> = line.split('\t').collect();
+            if f.len() >= 4 && (f[0] == "C01.vfn" || f[0] == "C01.vex") {
+                let src = unescape(f[1]);
+                let vecs = vrun::parse_vvectors(f[3]).unwrap_or_else(|| vec![vec![]]);
+                let mut rng = Rng::new(1);
+                let run = if f[0] == "C01.vex" { vrun::vex_program } else { vrun::vrun_program };
+                if f[2] == "-" {
+                    run(&src, None, 3, &mut rng, out, &mut hist);
+                } else {
+                    run(&src, Some((f[2], &vecs)), vecs.len(), &mut rng, out, &mut hist);
+                }
+                continue;
+            }
             if f.len() < 4 || f[0] != "C01.fn" {
                 continue;
             }
@@ -460,6 +490,49 @@ pub fn run(args: &Args, out: &mut Out) {
             // a panic inside the harness itself (not under a guard of the real code): report, never hide
             hist.add("harness-panic");
             out.case(&format!("C01.fn\t{}\t-\t\t-\t-", one_line(&src)), "harness-panic", &format!("SKIP:harness panic {}", pn));
+        }
+    }
+    // exhaustive nesting shapes of the vector syntax (every tier)
+    {
+        let grid = vrun::parse_vvectors(&vpairs::grid_text()).unwrap_or_default();
+        for (shape, src) in vpairs::stream() {
+            let before = out.oracle_fail;
+            let mut arng = Rng::new(1);
+            let mut h2 = Hist::default();
+            if let Err(pn) = guard(|| vrun::vrun_program(&src, Some(("f1", &grid)), grid.len(), &mut arng, out, &mut h2)) {
+                hist.add("harness-panic");
+                out.case(&format!("C01.vfn\t{}\tf1\t{}\t-\t-", one_line(&src), vpairs::grid_text()), "harness-panic", &format!("SKIP:harness panic {}", pn));
+            }
+            hist.add("vshape");
+            if h2.0.contains_key("v:skip:front-end") {
+                hist.add(&format!("vshape-rejected-by-front-end:{}", shape));
+            }
+            if h2.0.keys().any(|k| k.starts_with("v:text-unsupported") || k.starts_with("v:unsupported")) {
+                hist.add(&format!("vshape-unsupported:{}", shape));
+            }
+            if out.oracle_fail > before {
+                hist.add(&format!("vshape-oracle-fail:{}", shape));
+            }
+        }
+    }
+    // vector / struct / array / enum stream (C01.vfn): the Lean model answers `unsupported-op`, the two Rust evaluators judge
+    let nv = if args.n.is_some() { n } else if args.thorough() { 4000 } else { 250 };
+    for k in 0..nv {
+        let src = vrun::vprogram(args.seed, k);
+        let mut arng = Rng::new(args.seed ^ (k.wrapping_mul(0x9E37_79B9_7F4A_7C15)) ^ 0x5eed);
+        if let Err(pn) = guard(|| vrun::vrun_program(&src, None, 6, &mut arng, out, &mut hist)) {
+            hist.add("harness-panic");
+            out.case(&format!("C01.vfn\t{}\t-\t\t-\t-", one_line(&src)), "harness-panic", &format!("SKIP:harness panic {}", pn));
+        }
+    }
+    // expression functions of the Lean vector layer (C01.vex): model tree / values compared, oracle as above
+    let nx = if args.n.is_some() { n } else if args.thorough() { 4000 } else { 400 };
+    for k in 0..nx {
+        let src = vrun::vex_source(args.seed, k);
+        let mut arng = Rng::new(args.seed ^ (k.wrapping_mul(0x9E37_79B9_7F4A_7C15)) ^ 0x7e8);
+        if let Err(pn) = guard(|| vrun::vex_program(&src, None, 6, &mut arng, out, &mut hist)) {
+            hist.add("harness-panic");
+            out.case(&format!("C01.vex\t{}\t-\t\t-\t-", one_line(&src)), "harness-panic", &format!("SKIP:harness panic {}", pn));
         }
     }
     // exhaustive operator-nesting shapes (every tier): one tiny function per program, fixed argument grid
